@@ -121,11 +121,19 @@ def _solve_one(args):
             if ok:
                 return "discharged", "groebner", time.time() - t0, how
             eq_goal = False  # already tried
+    ok = _split_last(hyps, goal, min(t_z3, 4000))
+    if ok:
+        return "discharged", "z3+split", time.time() - t0, ok
     r, dt, info = _z3_check(smt2, t_z3)
     if r == "unsat":
         return "discharged", "z3", time.time() - t0, info
     if r == "sat":
         return "refuted", "z3", time.time() - t0, info
+    # case split "last element / the others" on the Skolem indices of a universally quantified goal -- the shape
+    # of an induction step over an extended list or a loop bound advanced by one
+    ok = _split_last(hyps, goal, t_z3)
+    if ok:
+        return "discharged", "z3+split", time.time() - t0, ok
     if use_cvc5:
         r2, dt2, info2 = _cvc5_check(smt2, t_cvc5)
         if r2 == "unsat":
@@ -137,6 +145,47 @@ def _solve_one(args):
         if ok:
             return "discharged", "groebner", time.time() - t0, how
     return "undecided", "z3", time.time() - t0, info
+
+
+def _split_last(hyps, goal, t_ms):
+    g = goal
+    pre = []
+    while z3.is_implies(g):
+        pre.append(g.arg(0))
+        g = g.arg(1)
+    if not (z3.is_quantifier(g) and g.is_forall()):
+        return None
+    n = g.num_vars()
+    if n > 3:
+        return None
+    sk = [z3.Int("sk!%d" % i) for i in range(n)]
+    body = z3.substitute_vars(g.body(), *reversed(sk))
+    if not z3.is_implies(body):
+        return None
+    guard = body.arg(0)
+    conj = list(guard.children()) if z3.is_and(guard) else [guard]
+    uppers = []
+    for cj in conj:
+        # sk < H   (also printed as  not (H <= sk))
+        if z3.is_lt(cj) and any(cj.arg(0).eq(v) for v in sk):
+            uppers.append((cj.arg(0), cj.arg(1)))
+        elif z3.is_gt(cj) and any(cj.arg(1).eq(v) for v in sk):
+            uppers.append((cj.arg(1), cj.arg(0)))
+    if not uppers:
+        return None
+    v, H = uppers[-1]
+    cases = [[v == H - 1], [v < H - 1]]
+    for extra in cases:
+        s_ = z3.Solver()
+        s_.set("timeout", t_ms)
+        for h in hyps + pre:
+            s_.add(h)
+        for e in extra:
+            s_.add(e)
+        s_.add(z3.Not(body))
+        if s_.check() != z3.unsat:
+            return None
+    return "case split on %s = %s - 1" % (v, str(H)[:40])
 
 
 def _nonlinear(t):
